@@ -153,7 +153,8 @@ func c08Err(err error) string {
 		return "evicted"
 	case err == io.EOF:
 		return "eof"
-	case err.Error() == "negative offset" || err.Error() == "invalid whence" || err.Error() == "invalid seek location":
+	case err.Error() == "negative offset" || err.Error() == "invalid whence" || err.Error() == "invalid seek location" ||
+		err.Error() == "offset too large":
 		return "invalid"
 	}
 	return "other:" + verifh.Str(err.Error())
@@ -434,7 +435,9 @@ func c08Exec(t *verifh.T, c verifh.Case) {
 			f, ok1 := handle(a[1])
 			p, err := verifh.Unhex(a[2])
 			off, err2 := strconv.ParseInt(a[3], 10, 64)
-			if !ok1 || err != nil || err2 != nil || off > 1<<16 {
+			// offsets up to 64 KiB (the slice is really allocated), or so large that the end of the write
+			// does not fit an int (refused; in between the allocation itself would fail)
+			if !ok1 || err != nil || err2 != nil || (off > 1<<16 && off <= math.MaxInt64-int64(len(p))) {
 				return false
 			}
 			n, werr := f.WriteAt(p, off)
@@ -670,11 +673,18 @@ func c08Random(r *verifh.Rand, tr *verifh.T, malformed bool) verifh.Case {
 		case w < 95:
 			o = c08Op("hwrite", pickH(), verifh.Hex(r.Bytes(r.Intn(3))))
 		default:
-			off := r.Intn(5)
+			off := int64(r.Intn(5))
 			if malformed && r.Chance(1, 4) {
 				off = -1
 			}
-			o = c08Op("hwriteat", pickH(), verifh.Hex(r.Bytes(r.Intn(3))), fmt.Sprint(off))
+			data := r.Bytes(r.Intn(3))
+			if r.Chance(1, 12) || (malformed && r.Chance(1, 4)) {
+				// the end of the write does not fit an int: refused (it used to panic)
+				off = math.MaxInt64 - int64(r.Intn(2))
+				data = r.Bytes(2 + r.Intn(2))
+				tr.Count("random_hwriteat_huge", 1)
+			}
+			o = c08Op("hwriteat", pickH(), verifh.Hex(data), fmt.Sprint(off))
 		}
 		ops = append(ops, o)
 		tr.Count("random_op_"+o[1], 1)
@@ -878,8 +888,11 @@ func TestVerif_C08_Concurrent(t *testing.T) {
 //
 // One record `one stress cap=<c> size=<n> writers=<w> ops=<o> mode=evict|delete spin=<s> reps=<r> rs=<seed>`
 // = r races: a complete blob of `size` bytes is created and opened by `writers` goroutines, each of
-// which performs `ops` GROWING WriteAt calls (always past the current end, so that the slice must be
-// re-allocated) interleaved with reads; one more goroutine removes the blob after `spin` iterations of
+// which performs `ops` GROWING writes (always past the current end, so that the slice must be
+// re-allocated) interleaved with reads — even-numbered ones through WriteAt / ReadAt, odd-numbered ones
+// through Seek(end) + Write and Seek(start) + Read —; while the blob lives its length never shrinks
+// (a lost header update would shrink it) and reads return only bytes written to this incarnation;
+// one more goroutine removes the blob after `spin` iterations of
 // a busy loop, by an evicting Create (mode=evict) or a Delete (mode=delete). When everybody has
 // finished the incarnation is gone for certain, and EVERY operation through EVERY handle of it must
 // report the evicted result. The handle calls are atomic with respect to eviction only because each
@@ -971,21 +984,97 @@ func c08StressOnce(p c08StressParams) (bad string, staleOps int) {
 		}
 		var wg sync.WaitGroup
 		start := make(chan struct{})
+		var raceMu sync.Mutex
+		raceBad := ""
+		note := func(format string, a ...any) {
+			raceMu.Lock()
+			if raceBad == "" {
+				raceBad = fmt.Sprintf("rep=%d ", rep) + fmt.Sprintf(format, a...)
+			}
+			raceMu.Unlock()
+		}
+		own := func(b []byte) bool {
+			for _, c := range b {
+				if c != 'a' && c != 'b' && c != 'w' && !(c >= 'A' && c <= 'P') {
+					return false
+				}
+			}
+			return true
+		}
 		for i := 0; i < p.writers; i++ {
 			wg.Add(1)
 			f := handles[1+i]
+			// roles: 0 = grows through WriteAt, 1 = grows through Seek(end)+Write, 2 = rewrites one byte of
+			// its own (position i of the initial bytes, letter 'A'+i) through Seek+Write and reads it back
+			role := i % 3
+			if role == 2 && uint64(i) >= p.size {
+				role = 1
+			}
+			useWrite := role == 1
+			pos, letter := int64(i), byte('A'+i)
 			go func() {
 				defer wg.Done()
 				<-start
 				buf := make([]byte, 4)
+				last := int64(p.size)
 				for j := 0; j < p.ops; j++ {
-					// grow: write one byte past the current end (ignores ErrEvicted: the blob may be gone)
-					sz := f.Size()
-					if sz < 0 {
-						sz = int64(j)
+					if role == 2 {
+						// a write in place, acknowledged, must be there when read back (nobody else writes this
+						// position) — unless the blob has been removed
+						if _, serr := f.Seek(pos, io.SeekStart); serr != nil {
+							continue
+						}
+						if n, werr := f.Write([]byte{letter}); werr != nil || n != 1 {
+							continue
+						}
+						one := make([]byte, 1)
+						if m, rerr := f.ReadAt(one, pos); m == 1 && one[0] != letter {
+							note("lost-write: handle=%d wrote %q at %d and read back %q", 1+i, letter, pos, one[0])
+						} else if rerr != nil && rerr != io.EOF && !errors.Is(rerr, ErrEvicted) {
+							note("lost-write: handle=%d ReadAt(%d) = %v", 1+i, pos, rerr)
+						}
+						continue
 					}
-					_, _ = f.WriteAt([]byte{'b'}, sz)
-					_, _ = f.ReadAt(buf, 0)
+					// grow: write one byte past the current end (ErrEvicted is fine: the blob may be gone)
+					sz := f.Size()
+					if sz >= 0 && sz < last {
+						note("lost-write: handle=%d the blob shrank from %d to %d bytes while it was live", 1+i, last, sz)
+					}
+					if sz >= 0 {
+						last = sz
+					}
+					var n int
+					var err error
+					if useWrite {
+						if _, serr := f.Seek(0, io.SeekEnd); serr == nil {
+							n, err = f.Write([]byte{'w'})
+						} else {
+							err = serr
+						}
+					} else {
+						if sz < 0 {
+							sz = int64(j)
+						}
+						n, err = f.WriteAt([]byte{'b'}, sz)
+					}
+					if err == nil && n == 1 {
+						// the write was acknowledged: from now on the blob is at least one byte longer than
+						// what this goroutine saw before (until it is removed)
+						if now := f.Size(); now >= 0 && now < last+1 {
+							note("lost-write: handle=%d wrote a byte at the end of %d bytes, the blob is %d bytes long", 1+i, last, now)
+						}
+					}
+					var m int
+					if useWrite {
+						if _, serr := f.Seek(0, io.SeekStart); serr == nil {
+							m, _ = f.Read(buf)
+						}
+					} else {
+						m, _ = f.ReadAt(buf, 0)
+					}
+					if !own(buf[:m]) {
+						note("foreign-bytes: handle=%d read %q", 1+i, buf[:m])
+					}
 				}
 			}()
 		}
@@ -1008,13 +1097,22 @@ func c08StressOnce(p c08StressParams) (bad string, staleOps int) {
 		}()
 		close(start)
 		wg.Wait()
+		if raceBad != "" {
+			return raceBad, staleOps
+		}
 		if in, _ := s.Has(key); in {
 			return "setup:blob-survived", staleOps
 		}
 		// the incarnation is gone: every operation through every handle must say so, for ever
 		for round := 0; round < 2; round++ {
 			for hi, f := range handles {
-				staleOps += 4
+				staleOps += 6
+				if n, err := f.Write([]byte{'c'}); !errors.Is(err, ErrEvicted) {
+					return fmt.Sprintf("rep=%d handle=%d Write=%d,%v", rep, hi, n, err), staleOps
+				}
+				if n, err := f.Read(make([]byte, 1)); !errors.Is(err, ErrEvicted) {
+					return fmt.Sprintf("rep=%d handle=%d Read=%d,%v", rep, hi, n, err), staleOps
+				}
 				if n := f.Size(); n != -1 {
 					return fmt.Sprintf("rep=%d handle=%d Size=%d", rep, hi, n), staleOps
 				}
@@ -1039,8 +1137,13 @@ func c08StressRecord(tr *verifh.T, p c08StressParams) {
 	tr.Count("stress_stale_handle_ops", n)
 	if bad != "" {
 		key := "stale-handle-revived"
-		if strings.HasPrefix(bad, "setup:") {
+		switch {
+		case strings.HasPrefix(bad, "setup:"):
 			key = "harness-stress-setup"
+		case strings.Contains(bad, "lost-write:"):
+			key = "handle-lost-write"
+		case strings.Contains(bad, "foreign-bytes:"):
+			key = "handle-foreign-bytes"
 		}
 		tr.PropFail(key, verifh.Str(bad), verifh.Str(strings.Join(p.toks(), " ")))
 		tr.One(p.toks(), "revived")
